@@ -292,6 +292,7 @@ var documentedMisses = map[string]string{
 	"C07-A": "value-level: a wrong comparison result for particular version strings; no structural rule decides it",
 	"C07-D": "value-level: a wrong comparison result for particular version strings; no structural rule decides it",
 	"C07-F": "value-level: a wrong comparison result for particular version strings; no structural rule decides it",
+	"C07-I": "value-level: Maven's leading-zero normalisation moved from sub-tokens to raw tokens (rc01 vs rc1); no structural rule decides it",
 	"C02-F": "the panic is raised inside a third-party decoder on a nil argument its contract does not document",
 	"C02-G": "a hang: a deferred wait for a goroutine that blocks on an unbuffered pipe nobody reads any more (liveness, no structural clause decides it)",
 }
